@@ -1,6 +1,7 @@
 #!/usr/bin/env python3
 """Assembly of one Verus unit file from real /repo text + contracts (see DESIGN.md 2.1)."""
 import re
+import xtract
 from xtract import Src, emit_fn, clean_const, clean_struct, AnchorLost, match_close
 
 _SRC = {}
@@ -24,6 +25,7 @@ class Unit:
         self.items = []                     # dicts: name, kind, file, line, contract
         self.assumed = []                   # contract ids used as external_body stubs
         self.trusted = []                   # free-text trusted assumptions (assume_specification ...)
+        self.lost_hints = {}               # emitted fn name -> [anchors] of proof hints that could not be placed
         self.axioms = []                    # lemma names used as axioms here (proved in the unit that owns them)
         self.rlimit = 60
         self.extra_args = []
@@ -55,10 +57,13 @@ class Unit:
         req = requires if requires is not None else c.get('requires', '')
         if extra_requires:
             req = (req + ', ' if req else '') + extra_requires
+        del xtract.LOST_HINTS[:]
         txt = emit_fn(sig, body, requires=req,
                       ensures=ensures if ensures is not None else c.get('ensures', ''),
                       hints=hints, hints_all=hints_all, loops=loops, rename=rename, subst=subst, attrs=attrs,
                       decreases=decreases or c.get('decreases', ''), replace_sig=replace_sig, no_unwind=no_unwind)
+        if xtract.LOST_HINTS:
+            self.lost_hints[rename or name] = list(xtract.LOST_HINTS)
         self.chunks.append(txt)
         self.items.append(dict(name=(cid or name), kind='exec', file=rel, line=line,
                                emitted=rename or name, contract=dict(requires=req, ensures=ensures if ensures is not None else c.get('ensures', ''))))
